@@ -116,6 +116,8 @@ func generalPlan(tier string, faults bool) []PlanItem {
 			PlanItem{scnTerms("terms-health2-K1", K1, []string{"ok", "bad", "bad", "ok"}, 2, "A", "B"), d},
 			PlanItem{scnPreempt("preempt-lowfirst-K1", K1, []InstSpec{{ID: "A", Priority: 1, Takeover: true}, {ID: "B", Priority: 2, Takeover: true}}, []string{"A", "B"}), d},
 			PlanItem{scnPreemptStop("preempt-then-stopdel-K1", K1), d},
+			PlanItem{scnPrio("preempt-chain-123-K1", []prioOpt{{1, false}, {2, true}, {3, true}}, []string{"A", "B", "C"}, false), d},
+			PlanItem{scnPrio("preempt-chain-132-K1", []prioOpt{{1, true}, {3, true}, {2, true}}, []string{"A", "B", "C"}, false), d},
 			PlanItem{scnPreempt("preempt-mixed-K1", K1, []InstSpec{{ID: "A", Priority: 2}, {ID: "B", Priority: 2, Takeover: true}, {ID: "C", Priority: 3, Takeover: true}}, []string{"A", "B", "C"}), d},
 		)
 	}
